@@ -15,7 +15,16 @@ EXTENDS Json, IOUtils, TLC, Sequences, Naturals
 T == ndJsonDeserialize(IOEnv.VERIF_IN)
 VARIABLE l
 InitO == l = 0
+(* t = "stale_t7": generation N ended by the peer shortly before its T7 dwell expires, generation N+1 silent again: the
+   successor gets its whole dwell (measured by the peer from before its connect to the EOF: errs on the long side only)
+   and IS dropped by its own T7 *)
+WhyT7(r) ==
+    IF r.fault /= "" THEN "HarnessFault"
+    ELSE IF r.dwell2_us < r.t7_ms * 1000 THEN "SuccessorDwellCutShortByOldT7"
+    ELSE IF ~r.dropped2 THEN "SuccessorT7NeverFired"
+    ELSE ""
 Why(r) ==
+    IF r.t = "stale_t7" THEN WhyT7(r) ELSE
     IF r.fault /= "" \/ ~r.wedged \/ ~r.gen2_selected THEN "HarnessFault"
     ELSE IF r.state_after_release /= "S" THEN "SuccessorLeftSelectedWithoutCause"
     ELSE IF r.notes_after_release /= <<>> THEN "NotificationWithoutCause"
